@@ -546,5 +546,50 @@ func GenExposureWorld(t *rapid.T) *World {
 		w.NPs = append(w.NPs, NetPol{Ns: w.Namespaces[0].Name, Name: "np-seed", PolicyTypes: []string{"Ingress", "Egress"}})
 	}
 	addNearDuplicates(t, w)
+	if rapid.IntRange(0, 4).Draw(t, "isons") == 0 {
+		addIsolatedNamespace(t, w)
+	}
 	return w
+}
+
+// addIsolatedNamespace adds a namespace whose only workload has no connection at all (its policy admits only peers of a
+// namespace that does not exist), yet is exposed; and a rule elsewhere that names this namespace with a pod selector no
+// pod satisfies. The namespace then enters the report only through the exposure section.
+func addIsolatedNamespace(t *rapid.T, w *World) {
+	const iso = "iso"
+	w.Namespaces = append(w.Namespaces, Ns{Name: iso, HasObject: rapid.Bool().Draw(t, "isoobj")})
+	w.Workloads = append(w.Workloads, Workload{Ns: iso, Name: "lonely", Kind: "Deployment", Replicas: 1, Labels: map[string]string{"app": "x1"}})
+	ghost := Peer{NsSel: &Selector{MatchLabels: map[string]string{"env": "nowhere"}}}
+	p := NetPol{Ns: iso, Name: "np-iso", PolicyTypes: []string{"Ingress", "Egress"}}
+	switch rapid.IntRange(0, 2).Draw(t, "isodir") {
+	case 0:
+		p.Ingress = []Rule{{Peers: []Peer{ghost}}}
+	case 1:
+		p.Egress = []Rule{{Peers: []Peer{ghost}}}
+	default:
+		p.Ingress = []Rule{{Peers: []Peer{ghost}}}
+		p.Egress = []Rule{{Peers: []Peer{ghost}, Ports: []PPort{{PortNum: 80}}}}
+	}
+	var others []int
+	for i := range w.NPs {
+		if w.NPs[i].Ns != iso {
+			others = append(others, i)
+		}
+	}
+	w.NPs = append(w.NPs, p)
+	ref := Rule{Peers: []Peer{{NsSel: &Selector{MatchLabels: map[string]string{nsNameKey: iso}}, PodSel: &Selector{MatchLabels: map[string]string{"app": "nobody"}}}}}
+	if rapid.Bool().Draw(t, "isorefports") {
+		ref.Ports = []PPort{{PortNum: 8080}}
+	}
+	if len(others) == 0 {
+		q := NetPol{Ns: w.Namespaces[0].Name, Name: "np-ref", PolicyTypes: []string{"Ingress", "Egress"}}
+		w.NPs = append(w.NPs, q)
+		others = []int{len(w.NPs) - 1}
+	}
+	q := &w.NPs[others[rapid.IntRange(0, len(others)-1).Draw(t, "isoref")]]
+	if rapid.Bool().Draw(t, "isorefdir") {
+		q.Ingress = append(q.Ingress, ref)
+	} else {
+		q.Egress = append(q.Egress, ref)
+	}
 }
